@@ -11,6 +11,7 @@ import (
 	"path/filepath"
 	"strings"
 	"sync"
+	"sync/atomic"
 	"time"
 )
 
@@ -47,8 +48,19 @@ type solverRun struct {
 	secs   float64
 }
 
+var fileSeq int64
+
+// solverSlots bounds the number of solver processes running at any time (all callers share it).
+var solverSlots = make(chan struct{}, 15)
+
 func runSolver(ctx context.Context, sp solverSpec, file string, opts solveOpts) solverRun {
 	argv := sp.argv(file, opts.timeoutS, opts.seed)
+	select {
+	case solverSlots <- struct{}{}:
+	case <-ctx.Done():
+		return solverRun{sp.name, "cancelled", "", 0}
+	}
+	defer func() { <-solverSlots }()
 	start := time.Now()
 	cctx, cancel := context.WithTimeout(ctx, time.Duration(opts.timeoutS+5)*time.Second)
 	defer cancel()
@@ -81,11 +93,16 @@ func solveOne(o *Obligation, idx int, opts solveOpts) {
 	if o.Result != "" {
 		return // trivial, or already decided in a Houdini round
 	}
-	script := o.vc.finalScript(o, true)
+	var script string
+	if o.vc != nil {
+		script = o.vc.finalScript(o, true)
+	} else {
+		script = o.Script // self-contained query (e.g. a regular-language lemma)
+	}
 	if o.ExpectSat && opts.timeoutS > 3 {
 		opts.timeoutS = 3 // probes only look for a quickly found contradiction
 	}
-	file := filepath.Join(opts.scratch, fmt.Sprintf("o%05d.smt2", idx))
+	file := filepath.Join(opts.scratch, fmt.Sprintf("o%05d_%d.smt2", idx, atomic.AddInt64(&fileSeq, 1)))
 	if err := os.WriteFile(file, []byte(script), 0o644); err != nil {
 		o.Result = "error"
 		o.Output = err.Error()
@@ -109,7 +126,7 @@ func solveOne(o *Obligation, idx int, opts solveOpts) {
 		order = []int{0, 2, 1}
 	}
 	launch(order[0])
-	stagger := time.NewTimer(1500 * time.Millisecond)
+	stagger := time.NewTimer(4 * time.Second)
 	defer stagger.Stop()
 	var runs []solverRun
 	definitive := map[string][]solverRun{}
@@ -197,6 +214,9 @@ func solveAll(obls []*Obligation, opts solveOpts) {
 		opts.workers = 12
 	}
 	var wg sync.WaitGroup
+	if opts.workers < 30 {
+		opts.workers = 30 // obligations in flight; the number of solver processes is bounded by solverSlots
+	}
 	sem := make(chan struct{}, opts.workers)
 	for i, o := range obls {
 		wg.Add(1)
